@@ -90,7 +90,14 @@ def get_use_tree(
                     }
                     use_dict[use_stmnt.mod_name] = use_dict_mod
             elif type(use_stmnt) is Use:
-                use_dict[use_stmnt.mod_name] = Use(use_stmnt.mod_name)
+                # The whole module is visible, renames found so far still apply
+                use_dict[use_stmnt.mod_name] = Use(
+                    use_stmnt.mod_name,
+                    rename_map={**use_dict_mod.rename_map, **merged_rename},
+                )
+                # The module was only partly visible so far: visit it again
+                if old_len > 0:
+                    old_len = -1
             # Skip if we have already visited module with the same only list
             if old_len == len(use_dict_mod.only_list):
                 continue
